@@ -417,9 +417,10 @@ class FuncTranslator:
             if isinstance(s, ast.Expr) and isinstance(s.value, ast.Constant) and isinstance(s.value.value, str):
                 continue                                  # docstring
             if isinstance(s, ast.Assign):
-                if len(s.targets) != 1 or not isinstance(s.targets[0], ast.Name): fail(s, 'assignment target')
+                if not all(isinstance(t_, ast.Name) for t_ in s.targets): fail(s, 'assignment target')
                 name = s.targets[0].id
                 if isinstance(s.value, ast.List):
+                    if len(s.targets) != 1: fail(s, 'chained assignment of a list')
                     vals = []
                     for el in s.value.elts:
                         e = self.expr(el)
@@ -429,13 +430,17 @@ class FuncTranslator:
                     self.env[name] = ('table', vals)
                     continue
                 e = self.expr(s.value)
-                t = ty(e)
-                if t == 'Ret': e, t = toK(e, s), 'K'
-                if name in self.env and self.env[name] != t:
-                    if self.env[name] == 'K' and t == 'Int': e, t = toK(e, s), 'K'
-                    else: fail(s, 'variable %s changes type %s -> %s' % (name, self.env[name], t))
-                self.env[name] = t
-                out.append(('assign', name, e, t))
+                # `a = b = e` evaluates e once and assigns from left to right: a = e; b = a
+                for k_, tgt in enumerate(s.targets):
+                    name = tgt.id
+                    ek = e if k_ == 0 else ('var', s.targets[0].id, self.env[s.targets[0].id])
+                    t = ty(ek)
+                    if t == 'Ret': ek, t = toK(ek, s), 'K'
+                    if name in self.env and self.env[name] != t:
+                        if self.env[name] == 'K' and t == 'Int': ek, t = toK(ek, s), 'K'
+                        else: fail(s, 'variable %s changes type %s -> %s' % (name, self.env[name], t))
+                    self.env[name] = t
+                    out.append(('assign', name, ek, t))
                 continue
             if isinstance(s, ast.If):
                 c = self.expr(s.test)
@@ -458,7 +463,9 @@ class FuncTranslator:
                     else: v = None
                     if v is not None: merged[k] = v
                 self.env = merged
-                out.append(('if', c, b1, b2))
+                # variables assigned in the statement that are still defined afterwards (on every path that falls through)
+                live = [k for k in assigned(b1 + b2) if k in merged and not isinstance(merged[k], tuple)]
+                out.append(('if', c, b1, b2, live))
                 continue
             if isinstance(s, ast.Return):
                 out.append(('return', self.retval(s.value)))
@@ -726,16 +733,12 @@ class LeanEmitter:
         if s[0] == 'if':
             c, b1, b2 = s[1], s[2], s[3]
             if not contains_return(b1) and not contains_return(b2):
-                vs = assigned(b1 + b2)
-                # only variables that exist on both paths (or existed before) can be used later
+                # a variable assigned on one branch only keeps its previous value on the other (it is in scope: `live`
+                # holds only variables defined on every path); one that did not exist before is dead afterwards
+                vs = list(s[4]) if len(s) > 4 else assigned(b1 + b2)
                 if not vs:
                     return self.S(rest, ind, kind, tail)
-                tup = vs[0] if len(vs) == 1 else '(' + ', '.join(vs) + ')'
                 tupl = self.lname(vs[0]) if len(vs) == 1 else '(' + ', '.join(self.lname(v) for v in vs) + ')'
-                for b in (b1, b2):
-                    got = assigned(b)
-                    if any(v not in got for v in vs):
-                        raise TranslateError('variable(s) %s assigned on one branch only' % [v for v in vs if v not in got])
                 t1 = self.S(b1, ind + 2, 'tuple', tupl)
                 t2 = self.S(b2, ind + 2, 'tuple', tupl)
                 return (pad + 'let %s :=\n' % tupl + pad + '  if %s then\n' % self.E(c) + t1 + '\n' + pad + '  else\n' + t2 + '\n'
@@ -962,7 +965,8 @@ def power_array(B, value, comb):
     npowers = [c[0] for c in comb if c[0] < 0] + [-1]
     nneg, npos = -min(npowers), max(ppowers)
     p = [B.I(0)] * (1 + npos + nneg)
-    p[0], p[1], p[-1] = B.I(1), value, B.I(1) / value
+    p[0], p[1] = B.I(1), value
+    p[-1] = B.I(1) / value if value != 0 else B.inf
     for c in comb:
         p[c[0]] = p[c[1][0]]
         for m in c[1][1:]:
@@ -972,6 +976,7 @@ def power_array(B, value, comb):
 
 
 class FloatBackend:
+    inf = math.inf
     L = staticmethod(float)
     I = staticmethod(float)
     sqrt = staticmethod(math.sqrt)
@@ -981,6 +986,8 @@ class FloatBackend:
 
 class DecimalBackend:
     """70 significant digits; literals are the exact values of the doubles"""
+    inf = Decimal('Infinity')
+
     def __init__(self, prec=70):
         self.prec = prec
     def L(self, x): return Decimal(x)
@@ -1004,6 +1011,234 @@ class Compiled:
 
     def __call__(self, fn, *args):
         return self.ns['f_' + fn](self.B, self.C, self.EL, self.TB, *args)
+
+
+# ----------------------------------------------------------------------------- probes: where can the arithmetic go singular?
+
+class Probes:
+    """recorder used by the probed functions: the value of every denominator, square-root argument, power-array base and
+    comparison difference met while evaluating a routine once (float arithmetic; a zero denominator / negative radicand
+    does not abort the evaluation)"""
+    def __init__(self):
+        self.vals = {}
+
+    def div(self, k, a, b):
+        self.vals.setdefault(k, b)
+        try:
+            return a / b
+        except ZeroDivisionError:
+            return float('nan')
+
+    def sqrt(self, k, x):
+        self.vals.setdefault(k, x)
+        try:
+            return math.sqrt(x)
+        except ValueError:
+            return float('nan')
+
+    def base(self, k, x):
+        self.vals.setdefault(k, x)
+        return x
+
+    def cmp(self, k, a, op, b):
+        self.vals.setdefault(k, a - b)
+        return {'<=': a <= b, '<': a < b, '>=': a >= b, '>': a > b}[op]
+
+
+class ProbeEmitter(PyEmitter):
+    """the translated functions with every division, sqrt, power_array base and comparison routed through `PB`"""
+    def __init__(self, M):
+        PyEmitter.__init__(self, M)
+        self.sites = {}          # key -> (function, kind, text of the probed sub-expression)
+        self.cur = None
+
+    def key(self, kind, e):
+        k = '%s#%d' % (self.cur, len([1 for x in self.sites if x.startswith(self.cur + '#')]))
+        self.sites[k] = (self.cur, kind, PyEmitter(self.M).E(e)[:200])
+        return k
+
+    def E(self, e):
+        k = e[0]
+        if k == 'bin' and e[1] == '/':
+            return 'PB.div(%r, %s, %s)' % (self.key('denominator', e[3]), self.E(e[2]), self.E(e[3]))
+        if k == 'fn1' and e[1] == 'sqrt':
+            return 'PB.sqrt(%r, %s)' % (self.key('sqrt argument', e[2]), self.E(e[2]))
+        if k == 'parr':
+            return 'power_array(B, PB.base(%r, %s), CH[%r])' % (self.key('power_array base (1/value)', e[1]), self.E(e[1]), e[2])
+        if k == 'cmp':
+            return 'PB.cmp(%r, %s, %r, %s)' % (self.key('comparison', ('bin', '-', e[2], e[3], 'K')), self.E(e[2]), e[1], self.E(e[3]))
+        if k == 'call':
+            return 'g_%s(B, C, EL, TB, PB, %s)' % (e[1], ', '.join(self.E(a) for a in e[2]))
+        return PyEmitter.E(self, e)
+
+    def source(self):
+        o = [PY_PRELUDE]
+        for fn in self.M.order:
+            f = self.M.fir[fn]
+            self.cur = fn
+            o.append('def g_%s(B, C, EL, TB, PB, %s):' % (fn, ', '.join('v_' + p for p, _ in f['params'])))
+            o += self.S(f['body'], 1, f['kind'])
+            if f['kind'] == 'Ret':
+                o.append("    return ('none',)")
+            o.append('')
+        return '\n'.join(o)
+
+
+class Prober:
+    """trace(fn, *args) -> {site key: value} for one evaluation of the translated routine in float arithmetic"""
+    def __init__(self, M):
+        self.M = M
+        em = ProbeEmitter(M)
+        src = em.source()
+        self.sites = em.sites
+        self.ns = {'CH': dict(M.chains)}
+        exec(compile(src, '<probed %s>' % M.name, 'exec'), self.ns)
+        B = FloatBackend
+        self.C = {k: (B.L(v) if t == 'K' else v) for k, (t, v) in M.consts.items()}
+        self.EL = {k: B.L(v) for k, v in M.elems.items()}
+        self.TB = {k: ([B.L(x) for x in vals] if t == 'K' else list(vals)) for k, (t, vals) in M.tables.items()}
+
+    def trace(self, fn, *args):
+        pb = Probes()
+        try:
+            self.ns['g_' + fn](FloatBackend, self.C, self.EL, self.TB, pb, *args)
+        except (ZeroDivisionError, OverflowError, ValueError, TypeError):
+            pass
+        return pb.vals
+
+    def describe(self, key):
+        fn, kind, text = self.sites[key]
+        return '%s of %s: %s' % (kind, fn, text)
+
+
+class TraceProber:
+    """the same interface on the REAL code, for comparisons against numeric constants only (used when the source can
+    no longer be translated): the function's AST is scanned for Compare nodes with a numeric side; sys.settrace evaluates
+    the other side in the running frame when the statement is reached"""
+    def __init__(self, mod, path, fnames):
+        self.mod = mod
+        tree = ast.parse(Path(path).read_text())
+        self.sites = {}
+        self.by_fn = {}
+        for node in tree.body:
+            if isinstance(node, ast.FunctionDef) and node.name in fnames:
+                lst = []
+                for st in ast.walk(node):
+                    if not isinstance(st, ast.stmt) or isinstance(st, ast.FunctionDef): continue
+                    tests = []
+                    if isinstance(st, (ast.If, ast.While)): tests = [st.test]
+                    elif isinstance(st, (ast.Assign, ast.Return, ast.Expr)) and st.value is not None: tests = [st.value]
+                    for tnode in tests:
+                        for c in ast.walk(tnode):
+                            if not isinstance(c, ast.Compare): continue
+                            items = [c.left] + list(c.comparators)
+                            for a, b in zip(items, items[1:]):
+                                for x, y in ((a, b), (b, a)):
+                                    v = self.const_value(y)
+                                    if v is None or self.const_value(x) is not None: continue
+                                    src = ast.unparse(x)
+                                    key = '%s@%d:%s~%r' % (node.name, st.lineno, src, v)
+                                    code = compile(ast.Expression(body=x), '<probe>', 'eval')
+                                    lst.append((st.lineno, key, code, v))
+                                    self.sites[key] = (node.name, 'comparison with the constant %r' % v, src)
+                self.by_fn[node.name] = lst
+
+    def const_value(self, n):
+        if isinstance(n, ast.Constant) and isinstance(n.value, (int, float)) and not isinstance(n.value, bool):
+            return float(n.value)
+        if isinstance(n, ast.UnaryOp) and isinstance(n.op, ast.USub):
+            v = self.const_value(n.operand)
+            return None if v is None else -v
+        if isinstance(n, ast.Name) and is_float(getattr(self.mod, n.id, None)):
+            return float(getattr(self.mod, n.id))
+        return None
+
+    def trace(self, fn, *args):
+        vals = {}
+        f = getattr(self.mod, fn)
+        code = f.__code__
+        sites = self.by_fn.get(fn, [])
+
+        def local(frame, event, arg):
+            if event == 'line':
+                for lineno, key, c, v in sites:
+                    if frame.f_lineno == lineno and key not in vals:
+                        try:
+                            x = eval(c, frame.f_globals, frame.f_locals)
+                            vals[key] = float(x) - v
+                        except Exception:
+                            pass
+            return local
+
+        def glob(frame, event, arg):
+            return local if frame.f_code is code else None
+        old = sys.gettrace()
+        sys.settrace(glob)
+        try:
+            import warnings
+            with warnings.catch_warnings():
+                warnings.simplefilter('ignore')
+                f(*args)
+        except Exception:
+            pass
+        finally:
+            sys.settrace(old)
+        return vals
+
+    def describe(self, key):
+        fn, kind, text = self.sites[key]
+        return '%s in %s: %s' % (kind, fn, text)
+
+
+def find_roots(prober, fn, make_args, lo, hi, n=300, log=False, domain_ok=None):
+    """scan x in [lo, hi] (n points), and for every probed site whose value changes sign between two neighbouring points
+    (or vanishes, or has an isolated tiny minimum of its modulus) bisect to the root.  -> [(site key, x_root, kind)]"""
+    if log:
+        xs = [lo * (hi / lo) ** (k / (n - 1)) for k in range(n)]
+    else:
+        xs = [lo + (hi - lo) * k / (n - 1) for k in range(n)]
+    xs[0], xs[-1] = lo, hi
+    tr = [prober.trace(fn, *make_args(x)) for x in xs]
+    keys = []
+    for t_ in tr:
+        for k in t_:
+            if k not in keys: keys.append(k)
+    out = []
+    for key in keys:
+        vs = [t_.get(key) for t_ in tr]
+        fin = [abs(v) for v in vs if v is not None and v == v and abs(v) != math.inf]
+        scale = max(fin) if fin else 0.0
+        real = [v for v in vs if v is not None and v == v]
+        if not real or min(real) == max(real):
+            continue                                  # constant along this line (e.g. t - 350 on the line t = 350): no root to look for
+        for i in range(len(xs)):
+            v = vs[i]
+            if v is None or v != v: continue
+            if v == 0.0:
+                nb = [vs[j] for j in (i - 1, i + 1) if 0 <= j < len(xs)]
+                if all(w is None or w != 0.0 for w in nb):
+                    out.append((key, xs[i], 'zero'))
+                continue
+            if i + 1 < len(xs):
+                w = vs[i + 1]
+                if w is not None and w == w and w != 0.0 and (v < 0) != (w < 0):
+                    a, b, fa = xs[i], xs[i + 1], v
+                    for _ in range(200):
+                        m = 0.5 * (a + b)
+                        if not (a < m < b): break
+                        fm = prober.trace(fn, *make_args(m)).get(key)
+                        if fm is None or fm != fm: break
+                        if fm == 0.0:
+                            a = b = m; break
+                        if (fm < 0) == (fa < 0): a, fa = m, fm
+                        else: b = m
+                    out.append((key, a, 'sign change'))
+                    if b != a: out.append((key, b, 'sign change'))
+            if 0 < i < len(xs) - 1 and scale > 0:
+                l_, r_ = vs[i - 1], vs[i + 1]
+                if l_ is not None and r_ is not None and abs(v) < abs(l_) and abs(v) < abs(r_) and abs(v) < 1e-9 * scale:
+                    out.append((key, xs[i], 'near zero'))
+    return out
 
 
 # ----------------------------------------------------------------------------- entry points
